@@ -791,6 +791,17 @@ fn print_validation_error(err: &ValidationError, input: &[u8], filename: Option<
     eprintln!();
 }
 
+/// Largest char boundary of `s` that is `<= index` (clamped to `s.len()`).
+///
+/// The error line below is cut at byte offsets derived from the error column,
+/// which can land inside a multi-byte character; slicing there would panic.
+fn floor_char_boundary(s: &str, mut index: usize) -> usize {
+    while !s.is_char_boundary(index) {
+        index -= 1;
+    }
+    index
+}
+
 /// Extract the line containing an error for display.
 fn get_error_line(input: &[u8], line: usize, column: usize) -> Option<(String, usize)> {
     let text = String::from_utf8_lossy(input);
@@ -822,11 +833,12 @@ fn get_error_line(input: &[u8], line: usize, column: usize) -> Option<(String, u
     let (display_content, caret_offset) = if line_content.len() > max_width {
         let error_col = column.saturating_sub(1);
         if error_col < max_width / 2 {
-            let truncated = &line_content[..max_width.min(line_content.len())];
+            let end = floor_char_boundary(line_content, max_width);
+            let truncated = &line_content[..end];
             (format!("{truncated}..."), error_col)
         } else {
-            let start = error_col.saturating_sub(max_width / 2);
-            let end = (start + max_width).min(line_content.len());
+            let start = floor_char_boundary(line_content, error_col.saturating_sub(max_width / 2));
+            let end = floor_char_boundary(line_content, start + max_width);
             let truncated = &line_content[start..end];
             let pos_in_truncated = error_col.saturating_sub(start);
             (format!("...{truncated}..."), pos_in_truncated + 3)
